@@ -451,6 +451,83 @@ func syncCase(c *ev.Case) {
 	}
 }
 
+// bigCapCase: requested capacities around every power of two up to 2^20 (the
+// rounding has to be right for all of them, not only for the small ones): Cap()
+// must be the smallest power of two >= max(2, requested); the ring must accept
+// exactly Cap() pushes, refuse the next one and return everything in order.
+var bigCaps = func() []int {
+	var out []int
+	for k := 1; k <= 20; k++ {
+		p := 1 << k
+		for _, d := range []int{-1, 0, 1, 2} {
+			if p+d >= 1 {
+				out = append(out, p+d)
+			}
+		}
+		out = append(out, p+p/2, p+p/2+1)
+	}
+	out = append(out, 65535, 65536, 65537, 65538, 98305, 131071, 131073, 131074, 196609, 262145, 1000000)
+	return out
+}()
+
+func bigCapCase(c *ev.Case) {
+	req := bigCaps[c.Index%len(bigCaps)]
+	var r ringz.SyncRing[int]
+	if !c.Guard("NewSync", func() { r = ringz.NewSync[int](req) }) {
+		return
+	}
+	want := wantCap(req)
+	got := 0
+	c.Guard("Cap", func() { got = r.Cap() })
+	c.Logf("NewSync(%d): Cap=%d", req, got)
+	if got != want {
+		c.Failf("syncring-cap", "NewSync(%d).Cap() = %d, want the smallest power of two >= max(2, requested) = %d", req, got, want)
+		return
+	}
+	bad := ""
+	c.Guard("fill/drain", func() {
+		// a rotation first, so that the fill wraps around the buffer
+		rot := c.Rng.Intn(want)
+		if rot > 5000 {
+			rot = 5000
+		}
+		for i := 0; i < rot; i++ {
+			r.Push(-1)
+			r.Pop()
+		}
+		for i := 0; i < want; i++ {
+			if !r.Push(i) {
+				bad = fmt.Sprintf("Push #%d failed on a ring holding %d of %d", i, i, want)
+				return
+			}
+		}
+		if r.Push(-5) || !r.IsFull() || r.Len() != want {
+			bad = fmt.Sprintf("full ring of capacity %d accepted a push or misreports (Len=%d IsFull=%v)", want, r.Len(), r.IsFull())
+			return
+		}
+		for i := 0; i < want; i++ {
+			v, ok := r.Pop()
+			if !ok || v != i {
+				bad = fmt.Sprintf("Pop #%d = (%d,%v), want (%d,true)", i, v, ok, i)
+				return
+			}
+		}
+		if _, ok := r.Pop(); ok || !r.IsEmpty() || r.Len() != 0 {
+			bad = fmt.Sprintf("drained ring misreports (Len=%d IsEmpty=%v)", r.Len(), r.IsEmpty())
+		}
+	})
+	if bad != "" {
+		c.Failf("syncring-bigcap", "NewSync(%d): %s", req, bad)
+		return
+	}
+	c.Add("bigcap_cases", 1)
+	c.Max("max_capacity_filled", int64(want))
+	c.Distinct(ev.Mix(uint64(req), 4242))
+	if c.WantSample() {
+		c.Sample(fmt.Sprintf("bigcap: NewSync(%d) -> Cap %d, filled to capacity after a rotation, overflow refused, drained in order", req, want))
+	}
+}
+
 // wrapCase: seek a fresh ring close below 2^32 (or 2^31) and run the model across the boundary.
 func wrapCase(c *ev.Case) {
 	rng := c.Rng
@@ -597,6 +674,7 @@ func main() {
 	r.Cases("ring", r.N(40000, 2000000), ev.Opt{HangViolation: true}, ringCase)
 	r.Cases("ring-grid", len(grid), ev.Opt{HangViolation: true}, gridCase)
 	r.Cases("syncring", r.N(20000, 1000000), ev.Opt{HangViolation: true}, syncCase)
+	r.Cases("syncring-bigcap", len(bigCaps), ev.Opt{HangViolation: true, Workers: 4}, bigCapCase)
 	r.Cases("syncring-wrap", r.N(20000, 1000000), ev.Opt{HangViolation: true}, wrapCase)
 	r.Cases("syncring-honest", 6, ev.Opt{MaxCaseSeconds: 3000}, honestCase)
 	// the same sequential workloads once under -race (checkptr on the reflection seek)
@@ -606,6 +684,7 @@ func main() {
 	r.Require("ring_expands", 1000)
 	r.Require("syncring_sequences", 10000)
 	r.Require("quiet_windows_closed", 3000)
+	r.Require("bigcap_cases", int64(len(bigCaps)))
 	if r.Thorough() {
 		r.Require("honest_wraps", 6)
 	}
